@@ -152,6 +152,7 @@ PROPS["C08"] = {
     ] + [H("c08_args::c08_classify_n%d" % n, bounds="every well-formed token buffer of exactly %d bytes" % n, timeout=1500, mem=4) for n in range(0, 7)] + [
         H("c08_args::c08_classify_n7", tier="thorough", cfg=["vp_thorough"], bounds="token buffer of exactly 7 bytes", timeout=3400, mem=10),
         H("c08_args::c08_classify_n8", tier="thorough", cfg=["vp_thorough"], bounds="token buffer of exactly 8 bytes", timeout=3400, mem=10),
+        H("c08_args::c08_classify_dashes", bounds="every token buffer of exactly 5 bytes over {-, a, NUL}", timeout=1200, mem=6),
         H("c08_args::c08_classify_twin", kind="twin"),
         H("c17_scalars::c17_pop_front", bounds="char_pop_front on every ordered pair of scalar values", exhaustive=True),
     ],
@@ -187,7 +188,7 @@ def _c10():
     hs = []
     for H_ in range(0, 6):
         t = 300 + 300 * H_
-        hs.append(H("c10_history::h%d::push_step" % H_, tier="both" if H_ <= 4 else "thorough", bounds="H=%d, any state under history_inv, any well-formed text <= %d bytes (incl. NUL)" % (H_, H_ + 1), timeout=t, mem=2 + H_))
+        hs.append(H("c10_history::h%d::push_step" % H_, tier="both", bounds="H=%d, any state under history_inv, any well-formed text <= %d bytes (incl. NUL)" % (H_, H_ + 1), timeout=t, mem=2 + H_))
         hs.append(H("c10_history::h%d::navigate_step" % H_, tier="both" if H_ <= 4 else "thorough", bounds="H=%d, any state, Up or Down" % H_, timeout=t, mem=2 + H_))
         hs.append(H("c10_history::h%d::base" % H_, bounds="H=%d" % H_))
     for H_ in (6, 7):
@@ -199,7 +200,7 @@ def _c10():
 
 
 PROPS["C10"] = {
-    "claim": "History::push / next_older / next_newer from ANY state satisfying the representation invariant (entries non-empty, NUL-terminated, well-formed, pairwise distinct) equal the reference history (dedupe, minimal oldest-first eviction, rejects, newest-first navigation) byte for byte and re-establish the invariant, one instance per buffer size H = 0..4 (quick) / 0..7 (thorough); plus a bounded run from new() independent of the invariant",
+    "claim": "History::push / next_older / next_newer from ANY state satisfying the representation invariant (entries non-empty, NUL-terminated, well-formed, pairwise distinct) equal the reference history (dedupe, minimal oldest-first eviction, rejects, newest-first navigation) byte for byte and re-establish the invariant, one instance per buffer size H = 0..5 for push, 0..4 for navigation (quick) / 0..7 (thorough); plus a bounded run from new() independent of the invariant",
     "assumptions": [
         "history_inv (base cases hN::base; every such state is reachable by submitting the entries oldest first and pressing Up)",
         "after a rejected push the navigation position may be unchanged or reset (statement silent)",
@@ -223,6 +224,7 @@ PROPS["C11"] = {
         H("c11_derived::c11_derived_set_a", bounds="derived autocomplete for names {get, set, get-led, go}: every word <= 4 bytes, free space 0..=6", timeout=1500, mem=6),
         H("c11_derived::c11_derived_set_b", bounds="derived autocomplete for names {led, zhuk (Cyrillic), ledger, zhar (Cyrillic)}: every word <= 4 bytes, free space 0..=6", timeout=1500, mem=6),
         H("c11_derived::c11_derived_group", bounds="derived autocomplete of a command group (two visible members, a hidden member, a catch-all): every word <= 4 bytes, free space 0..=6", timeout=1800, mem=8),
+        H("c11_derived::c11_cli_tab_with_help", cfg=["vp_n5", "vp_h0"], tags=["C11"], bounds="Tab through the Cli (N=5) with derived commands {heat, exit, heap} + built-in help: every single-word line of <= 4 bytes with the cursor at its end", timeout=1800, mem=8),
         H("c11_complete::c11_merge_twin", kind="twin"),
     ],
 }
@@ -317,8 +319,8 @@ PROPS["C06"] = {
         "terminal width is larger than prompt + N + 2 cells (no wrapping)",
     ],
     "harnesses": cli_keys("cli_term", SHOW_KEYS, tags=["C06"], timeout=1200, mem=5) + [
-        H("cli_term::show_enter", tags=["C06", "C13"], cfg=["vp_h0"], bounds="Enter from ANY editor state (N=3, history buffer of size 0), handler writes nothing / <=2 bytes over {x, LF} / changes the prompt", timeout=2400, mem=12),
-        H("cli_term::show_cli_write", tags=["C06", "C13"], bounds="Cli::write(write_str of <= 2 bytes over {x, LF}) from ANY CliInv state", timeout=1200, mem=5),
+    ] + [H("cli_term::show_enter_v%d" % v, tags=["C06", "C13"], cfg=["vp_h0"], bounds="Enter from ANY editor state with a line of exactly %d bytes (N=3, history buffer of size 0), handler writes nothing / <=2 bytes over {x, LF} / changes the prompt" % v, timeout=2400, mem=10) for v in range(0, 4)] + [
+    ] + [H("cli_term::show_cli_write_v%d" % v, tags=["C06", "C13"], cfg=["vp_h0"], bounds="Cli::write(write_str of <= 2 bytes over {x, LF}) from ANY editor state with a line of exactly %d bytes (N=3)" % v, timeout=2400, mem=10) for v in range(0, 4)] + [
         H("cli_term::show_set_prompt", tags=["C06"], bounds="Cli::set_prompt(any of three prompts) from ANY CliInv state", timeout=1200, mem=5),
         H("cli_term::show_twin", kind="twin"),
     ],
